@@ -68,6 +68,8 @@ type X struct {
 	PostCheck func()
 	post      bool // PostCheck is running (the bubble is over; teardown's mute no longer applies)
 
+	hostLayout int // 0 = not drawn yet; see BackendHost
+
 	S        *simrt.Sched
 	dead     bool // scheduler reported deadlock / no-progress; run is over
 	simStart time.Time
@@ -130,6 +132,22 @@ func (x *X) Violate(prop, fingerprint, format string, a ...any) {
 	x.Violations = append(x.Violations, Violation{prop, fingerprint, msg})
 	x.mu.Unlock()
 	x.Logf("VIOLATION %s %s: %s", prop, fingerprint, msg)
+}
+
+// BackendHost names the i-th backend address of a run. How a pool is laid out is drawn per
+// run: one machine per backend, several instances on one machine (same host, other port),
+// or service names -- backends are told apart by their whole address, nothing less.
+func (x *X) BackendHost(subnet, i int) string {
+	if x.hostLayout == 0 {
+		x.hostLayout = 1 + x.C.Intn(3, "backend-address-layout")
+	}
+	switch x.hostLayout {
+	case 2:
+		return fmt.Sprintf("10.%d.0.1:%d", subnet, 8000+i)
+	case 3:
+		return fmt.Sprintf("app.svc%d.internal:%d", subnet, 9000+i)
+	}
+	return fmt.Sprintf("10.%d.0.%d:80", subnet, i)
 }
 
 func (x *X) Fault(kind string) { x.mu.Lock(); x.Faults[kind]++; x.Nontrivial = true; x.mu.Unlock() }
